@@ -391,87 +391,152 @@ def custom_sections(F):
 TYPE_DEST_SRC = {"is_final": "is_final", "supertype_idx": "super_type", "shared": "shared", "mutable": "mutable", "element_type": "fields"}
 
 
+def _tail_values(e):
+    """value expressions an expression can evaluate to (through block/if/match tails; diverging arms dropped)"""
+    e = peel(e)
+    if not isinstance(e, dict):
+        return []
+    if e.get("k") == "Block":
+        return _tail_values(e["expr"]) if e.get("expr") is not None else []
+    if e.get("k") == "If":
+        return _tail_values(e["then"]) + (_tail_values(e["else"]) if "else" in e else [])
+    if e.get("k") == "Match" and e.get("src") not in ("ForLoopDesugar",):
+        out = []
+        for a2 in e["arms"]:
+            if not diverges(a2["body"]):
+                out += _tail_values(a2["body"])
+        return out
+    return [e]
+
+
+def _origins(fn, seed):
+    """Propagate 'which field of the matched value does this local come from' through lets (incl. tuple destructuring of a
+    match/if result), pattern matches on such locals, for-loops, and closure parameters of iterator adaptors.
+    seed: hid → origin name.  '#idx' marks enumerate() positions (neutral)."""
+    origin = dict(seed)
+
+    def of(e):
+        out = set()
+        for x in walk(e):
+            if x.get("k") == "Path" and x.get("res", {}).get("r") == "local" and x["res"].get("hid") in origin:
+                out.add(origin[x["res"]["hid"]])
+        out.discard("#idx")
+        return out
+
+    def bind(pat, src):
+        ch = False
+        if len(src) == 1:
+            o = next(iter(src))
+            for b in walk(pat):
+                if b.get("k") == "Binding" and b["hid"] not in origin:
+                    origin[b["hid"]] = o
+                    ch = True
+        return ch
+
+    changed = True
+    rounds = 0
+    while changed and rounds < 12:
+        changed = False
+        rounds += 1
+        for n in walk(fn["body"]):
+            k = n.get("k")
+            if k == "Let" and "init" in n:
+                pat = n["pat"]
+                if pat.get("k") == "Tuple":
+                    vals = [v for v in _tail_values(n["init"]) if v.get("k") == "Tup" and len(v.get("elems", [])) == len(pat["pats"])]
+                    for i, sub in enumerate(pat["pats"]):
+                        src = set()
+                        for v in vals:
+                            src |= of(v["elems"][i])
+                        changed |= bind(sub, src)
+                else:
+                    changed |= bind(pat, of(n["init"]))
+            elif k == "LetExpr":
+                changed |= bind(n["pat"], of(n["init"]))
+            elif k == "Match" and n.get("src") == "ForLoopDesugar":
+                src = of(n["scrut"])
+                enum = any(x.get("k") == "MethodCall" and x["method"] == "enumerate" for x in walk(n["scrut"]))
+                for inner in walk(n["arms"][0]["body"]):
+                    if inner.get("k") == "Match" and inner is not n:
+                        for a2 in inner["arms"]:
+                            if a2["pat"].get("variant") == "Some":
+                                bs = [b for b in walk(a2["pat"]) if b.get("k") == "Binding"]
+                                for i, b in enumerate(bs):
+                                    if b["hid"] in origin:
+                                        continue
+                                    if enum and i == 0 and len(bs) > 1:
+                                        origin[b["hid"]] = "#idx"
+                                        changed = True
+                                    elif len(src) == 1:
+                                        origin[b["hid"]] = next(iter(src))
+                                        changed = True
+                        break
+            elif k == "Match":
+                src = of(n["scrut"])
+                for a2 in n["arms"]:
+                    changed |= bind(a2["pat"], src)
+            elif k == "MethodCall" and n["args"] and any(a_.get("k") == "Closure" for a_ in n["args"]):
+                src = of(n["recv"])
+                enum = any(x.get("k") == "MethodCall" and x["method"] == "enumerate" for x in walk(n["recv"]))
+                for a_ in n["args"]:
+                    if a_.get("k") == "Closure":
+                        for pat in a_.get("params", []):
+                            bs = [b for b in walk(pat) if b.get("k") == "Binding"]
+                            for i, b in enumerate(bs):
+                                if b["hid"] in origin:
+                                    continue
+                                if enum and i == 0 and len(bs) > 1:
+                                    origin[b["hid"]] = "#idx"
+                                    changed = True
+                                elif len(src) == 1:
+                                    origin[b["hid"]] = next(iter(src))
+                                    changed = True
+    return origin
+
+
 def type_field_flow(F):
     """In Module::encode_type every attribute of the emitted subtype is a pure copy/conversion of the like-named Types field:
     is_final←is_final, supertype_idx←super_type, shared←shared, mutable←mutable(+position), element_type←fields(+position) —
-    no other field mixed in, no boolean/arithmetic operator, no literal."""
+    no other field mixed in, no boolean/arithmetic operator, no literal.  Origins are followed through lets (including a
+    tuple assembled per match arm and destructured after the match), nested matches, loops and iterator closures, so the
+    rule does not depend on whether the SubType literal is built per arm or once after the match."""
     r = RuleResult("R-TYPE-FIELD-FLOW",
                    "Module::encode_type copies each attribute of a type to the like-named attribute of the encoded subtype without combining it with another field, an operator or a literal (is_final, supertype, shared, per-field mutability and storage type)")
     fn = F.one_fn(name="encode_type", self_adt="Module")
     r.analysed.append(fn["path"])
-    n = 0
+    seed = {}
+    per_variant_ok = {}
     for m in walk(fn["body"]):
         if m.get("k") != "Match":
             continue
         for arm in m["arms"]:
-            leafs = [l for l in pat_alternatives(arm["pat"]) if l.get("k") == "Struct" and l.get("adt") == TYPES and l.get("variant")]
-            if not leafs or diverges(arm["body"]):
+            for leaf in pat_alternatives(arm["pat"]):
+                if leaf.get("k") == "Struct" and leaf.get("adt") == TYPES and leaf.get("variant"):
+                    for fname, sub in leaf["fields"]:
+                        for b in walk(sub):
+                            if b.get("k") == "Binding":
+                                seed[b["hid"]] = fname
+    if not seed:
+        raise CheckError("encode_type: no match over Types with bound fields found")
+    origin = _origins(fn, seed)
+    n = 0
+    for lit in walk(fn["body"]):
+        if lit.get("k") != "Struct" or "rest" in lit or not (lit.get("adt") or "").startswith("wasm_encoder::"):
+            continue
+        for d, val in lit["fields"]:
+            want = TYPE_DEST_SRC.get(d)
+            if want is None:
                 continue
-            leaf = leafs[0]
-            origin = {}
-            for fname, sub in leaf["fields"]:
-                for b in walk(sub):
-                    if b.get("k") == "Binding":
-                        origin[b["hid"]] = fname
-            # loop-derived locals: element of an iteration over a bound field inherits its origin; enumerate index is neutral
-            changed = True
-            while changed:
-                changed = False
-                for lp in walk(arm["body"]):
-                    if lp.get("k") == "Match" and lp.get("src") == "ForLoopDesugar":
-                        srcs = {origin[x["res"]["hid"]] for x in walk(lp["scrut"]) if x.get("k") == "Path" and x.get("res", {}).get("hid") in origin and origin[x["res"]["hid"]] != "#idx"}
-                        enum = any(x.get("k") == "MethodCall" and x["method"] == "enumerate" for x in walk(lp["scrut"]))
-                        for inner in walk(lp["arms"][0]["body"]):
-                            if inner.get("k") == "Match" and inner is not lp:
-                                for a2 in inner["arms"]:
-                                    if a2["pat"].get("variant") == "Some":
-                                        bs = [b for b in walk(a2["pat"]) if b.get("k") == "Binding"]
-                                        for i, b in enumerate(bs):
-                                            val = "#idx" if (enum and i == 0 and len(bs) > 1) else (next(iter(srcs)) if len(srcs) == 1 else None)
-                                            if val and origin.get(b["hid"]) != val:
-                                                origin[b["hid"]] = val
-                                                changed = True
-                                break
-            # bindings introduced by matching on (a projection of) a bound field inherit that field's origin
-            changed = True
-            while changed:
-                changed = False
-                for mm in walk(arm["body"]):
-                    scr = None
-                    pats = []
-                    if mm.get("k") == "Match" and mm.get("src") not in ("ForLoopDesugar",):
-                        scr, pats = mm["scrut"], [a2["pat"] for a2 in mm["arms"]]
-                    elif mm.get("k") == "LetExpr":
-                        scr, pats = mm["init"], [mm["pat"]]
-                    elif mm.get("k") == "Let" and "init" in mm:
-                        scr, pats = mm["init"], [mm["pat"]]
-                    if scr is None:
-                        continue
-                    srcs = {origin[x["res"]["hid"]] for x in walk(scr) if x.get("k") == "Path" and x.get("res", {}).get("hid") in origin} - {"#idx"}
-                    if len(srcs) != 1:
-                        continue
-                    for pt in pats:
-                        for b in walk(pt):
-                            if b.get("k") == "Binding" and b["hid"] not in origin:
-                                origin[b["hid"]] = next(iter(srcs))
-                                changed = True
-            for lit in walk(arm["body"]):
-                if lit.get("k") != "Struct" or "rest" in lit or not (lit.get("adt") or "").startswith("wasm_encoder::"):
-                    continue
-                for d, val in lit["fields"]:
-                    want = TYPE_DEST_SRC.get(d)
-                    if want is None:
-                        continue
-                    n += 1
-                    used = {origin.get(x["res"]["hid"], "?" + x["res"].get("name", "")) for x in walk(val) if x.get("k") == "Path" and x.get("res", {}).get("r") == "local"}
-                    used.discard("#idx")
-                    ops = [x.get("op") for x in walk(val) if x.get("k") == "Binary"] + ["!" for x in walk(val) if x.get("k") == "Unary" and x.get("op") == "!"]
-                    lits = [x.get("lit") for x in walk(val) if x.get("k") == "Lit"]
-                    ok = used == {want} and not ops and not lits
-                    r.ob(ok, {"variant": leaf["variant"], "dest": d, "from": sorted(used), "operators": ops})
-                    if not ok:
-                        r.violate("%s | %s.%s" % (fn["path"], leaf["variant"], d), F.loc(fn, val),
-                                  "encode_type(%s) computes `%s` from %s%s%s instead of copying the type's own `%s`: the encoded type is not the one requested" % (
-                                      leaf["variant"], d, sorted(used) or "nothing", (" with operator(s) " + ",".join(ops)) if ops else "", (" and literal(s) " + ",".join(lits)) if lits else "", want))
+            n += 1
+            used = {origin.get(x["res"]["hid"], "?" + x["res"].get("name", "")) for x in walk(val) if x.get("k") == "Path" and x.get("res", {}).get("r") == "local"}
+            used.discard("#idx")
+            ops = [x.get("op") for x in walk(val) if x.get("k") == "Binary"] + ["!" for x in walk(val) if x.get("k") == "Unary" and x.get("op") == "!"]
+            lits = [x.get("lit") for x in walk(val) if x.get("k") == "Lit"]
+            ok = used == {want} and not ops and not lits
+            r.ob(ok, {"dest": d, "from": sorted(used), "operators": ops})
+            if not ok:
+                r.violate("%s | %s" % (fn["path"], d), F.loc(fn, val),
+                          "encode_type computes `%s` from %s%s%s instead of copying the type's own `%s`: the encoded type is not the one requested" % (
+                              d, sorted(used) or "nothing", (" with operator(s) " + ",".join(ops)) if ops else "", (" and literal(s) " + ",".join(lits)) if lits else "", want))
     r.count("copied_attributes", n)
     return r
